@@ -47,8 +47,41 @@ func genVacancyPlan(t *rapid.T) *Plan {
 		}
 	}
 	tv := odd(time.Duration(rapid.Int64Range(int64(4*h), int64(12*h)).Draw(t, "t_vacancy")))
-	cause := rapid.SampledFrom([]string{"stopctx-delete", "crash", "ext-delete", "stop"}).Draw(t, "cause")
+	cause := rapid.SampledFrom([]string{"stopctx-delete", "crash", "ext-delete", "stop", "health-demotion"}).Draw(t, "cause")
 	switch cause {
+	case "health-demotion":
+		// the leader's own health check fails often enough to demote it; it stays started, its checker answers
+		// healthy again afterwards, and its record lapses: it is itself one of the candidates for the vacancy
+		// (with keep_candidates == 0 the only one)
+		m := rapid.SampledFrom([]int{1, 2, 3}).Draw(t, "mcf")
+		good := rapid.IntRange(2, 8).Draw(t, "healthy_ticks")
+		p.Instances[0].HasHealth, p.Instances[0].MCF = true, m
+		for i := 0; i < good; i++ {
+			p.Instances[0].Health = append(p.Instances[0].Health, 0)
+		}
+		for i := 0; i < m+rapid.IntRange(0, 1).Draw(t, "extra_bad"); i++ {
+			p.Instances[0].Health = append(p.Instances[0].Health, rapid.SampledFrom([]int{1, 1, 3}).Draw(t, "bad"))
+		}
+		tv = odd(time.Duration(good+m+1) * h)
+		if rapid.IntRange(0, 1).Draw(t, "sole") == 0 {
+			// nobody else: drop the candidates
+			p.Instances = p.Instances[:1]
+			var tl []Action
+			for _, a := range p.Timeline {
+				if a.Inst <= 0 {
+					tl = append(tl, a)
+				}
+			}
+			p.Timeline = tl
+			var ws []Window
+			for _, w := range p.Windows {
+				if w.Inst == 0 {
+					ws = append(ws, w)
+				}
+			}
+			p.Windows = ws
+			nc = 0
+		}
 	case "stopctx-delete":
 		p.Timeline = append(p.Timeline, Action{At: tv, Kind: ActStopCtx, Inst: 0, DeleteKey: true, WaitForDemote: rapid.Bool().Draw(t, "wfd")})
 	case "crash":
@@ -60,7 +93,7 @@ func genVacancyPlan(t *rapid.T) *Plan {
 	}
 	// sometimes a second vacancy: the first successor shuts down gracefully later
 	p.Horizon = tv + ttl + 3*time.Second + 12*h + 14*time.Second
-	if rapid.IntRange(0, 2).Draw(t, "second") == 0 {
+	if nc > 0 && rapid.IntRange(0, 2).Draw(t, "second") == 0 {
 		who := rapid.IntRange(1, nc).Draw(t, "second_who")
 		p.Timeline = append(p.Timeline, Action{At: odd(tv + ttl + 2*time.Second + time.Duration(rapid.Int64Range(0, int64(4*h)).Draw(t, "second_at"))), Kind: ActStopCtx, Inst: who, DeleteKey: true})
 	}
@@ -74,7 +107,7 @@ func genVacancyPlan(t *rapid.T) *Plan {
 
 func TestC06(t *testing.T) {
 	RunCheck(t, CheckSpec{Prop: "C06",
-		Rule:        "a leader plus 1-3 candidates; the record becomes vacant by {graceful shutdown with DeleteKey, crash = permanent partition of the leader so that the record lapses, outside delete, plain Stop so that the record lapses} at a generated instant (optionally a second vacancy later); per candidate: all / a random subset / none of the watch events lost, deliveries delayed up to 3H, Watch() failing 0-3 times, a transient error/time-out window on its store operations that ends, an end of its election by cancelling the Start context followed by a restart of the same object; jitter dice at the extremes. Oracle: for every vacancy instant (mutation log + expiry) with healthy started candidates, some candidate has a claim-up edge within 500ms + 100ms + 4 x max RTT of max(vacancy, candidate healthy, candidate started, last healthy claimant's claim end). Non-trivial = a vacancy with a healthy candidate and (no watch event of the vacancy delivered to any candidate, or an earlier Watch/partition failure on a candidate); distinct by plan hash.",
+		Rule:        "a leader plus 1-3 candidates; the record becomes vacant by {graceful shutdown with DeleteKey, crash = permanent partition of the leader so that the record lapses, outside delete, plain Stop so that the record lapses, the leader's health check demoting it (the leader stays started, alone or with the candidates, and its record lapses)} at a generated instant (optionally a second vacancy later); per candidate: all / a random subset / none of the watch events lost, deliveries delayed up to 3H, Watch() failing 0-3 times, a transient error/time-out window on its store operations that ends, an end of its election by cancelling the Start context followed by a restart of the same object; jitter dice at the extremes. Oracle: for every vacancy instant (mutation log + expiry) with healthy started candidates, some candidate has a claim-up edge within 500ms + 100ms + 4 x max RTT of max(vacancy, candidate healthy, candidate started, last healthy claimant's claim end). Non-trivial = a vacancy with a healthy candidate and (no watch event of the vacancy delivered to any candidate, or an earlier Watch/partition failure on a candidate); distinct by plan hash.",
 		Gen:         genVacancyPlan,
 		Oracle:      OracleC06,
 		Assumptions: []string{"the allowance for 'operation latencies' is 4 x the largest request+response latency of the plan (Create, Watch, Get, Create)"}})
